@@ -438,6 +438,18 @@ func (c *c20case) build() []*c20rec {
 		if len(r.outs) > 1 {
 			r.cmd += " && cp " + r.outs[0] + " " + r.outs[1]
 		}
+		// every task also leaves an undeclared side file next to its first output; a task whose first
+		// input comes from a task reads that side file through a path the record does not know
+		// (the form a modifier chain like {i:in|%.txt}.aux produces: "../<stem>.aux")
+		if len(r.up) > 0 && !recs[r.up[0]].source {
+			j := r.up[0]
+			r.cmd += "; cat ../" + strings.TrimSuffix(recs[j].outs[0], ".txt") + ".aux >> " + r.outs[0]
+			r.content += fmt.Sprintf("aux%d\n", j)
+			if len(r.outs) > 1 {
+				r.cmd += " && cp " + r.outs[0] + " " + r.outs[1]
+			}
+		}
+		r.cmd += "; echo aux" + fmt.Sprint(i) + " > " + strings.TrimSuffix(r.outs[0], ".txt") + ".aux"
 		if i%2 == 1 {
 			// a command whose non-final part fails harmlessly (grep without hits, ...): scipipe ran it
 			// with plain "bash -c", where only the last status counts; replaying it must do the same
